@@ -24,7 +24,12 @@ TARGET = "target" if os.path.abspath(REPO) == "/repo" else "target_alt"
 TRUSTED_BASE = [
     "Coq 8.16.1 kernel and coqc; vm_compute (bytecode VM) for finite table lemmas; no native_compute; thorough tier: coqchk -o re-checks the property's compiled closure (expected: Axioms <none>)",
     "axioms: none declared; Print Assumptions of every property theorem must read 'Closed under the global context' (checked on every run)",
-    "tools/gen_tables.py (pattern-directed translator of name tables, charsets, constants, macro index lists, shape pins)",
+    "the two-stage translator of name tables, charsets, constants, macro index lists and shape pins: tools/gen_tables.py (pattern-directed "
+    "reading of the Rust source, section by section) and, cross-checking it or replacing it where a shape is no longer recognised, "
+    "tools/probe.py + harness/src/probecases.rs (the same sections derived from the behaviour of the compiled code through its public "
+    "API: exhaustive over bytes / chars / enum variants, over every string literal of the source file for name tables); "
+    "tools/tabledeps.py (which property depends on which section: textual mention + Require closure + case kinds fed to the model); "
+    "tools/tables_fallback.json (last good values, emitted only for a failed section and only so that unrelated properties still build)",
     "extraction: Require Extraction + ExtrOcamlBasic only (its Extract Inductive for bool, option, unit, list, prod, sumbool, sumor; no Extract Constant); N/nat/positive stay inductives; ocaml/main.ml glue (string <-> list N)",
     "correspondence harness /verif/harness (Rust, path deps on /repo) with canonical printers; tools/*.py comparers and case generators",
     "spec-side definitions written from the MPD sources/protocol reference from memory (tokenizer, filter grammar, session rules, tag names, command reference, response grammar)",
@@ -46,6 +51,10 @@ class Ctx:
         self.mdl = os.path.join(CACHE, "ocaml", "mdl")
         self.harness_bin = os.path.join(CACHE, TARGET, "debug", "verif_harness")
         self.tables_info = None
+        self.table_failures = {}    # Tables.v section -> why it could not be obtained (scoped to this property in finish)
+        self.coq_files = []         # the property's COQ_FILES (set by ./check)
+        self.kinds = set()          # case kinds fed to the implementation / the model in this run
+        self.table_deps = None
         self.assumptions_out = ""
         self.obligations = 0
         self.discharged = 0
@@ -69,9 +78,11 @@ class Ctx:
         return out
 
     def run_impl(self, lines, harness_bin=None):
+        self.kinds |= {l.split(" ", 1)[0] for l in lines if l}
         return self._run(harness_bin or self.harness_bin, lines, "impl")
 
     def run_model(self, lines):
+        self.kinds |= {l.split(" ", 1)[0] for l in lines if l}
         if not os.path.exists(self.mdl):
             raise RuntimeError("model binary unavailable (extraction or OCaml build failed)")
         return self._run_sharded(self.mdl, lines, "model")
@@ -149,16 +160,64 @@ class Lock:
 
 # ---------------------------------------------------------------------- build steps
 
-def step_tables(ctx):
-    rc, out = sh([sys.executable, os.path.join(VERIF, "tools", "gen_tables.py"), REPO, os.path.join(COQ, "Tables.v")])
+def step_tables(ctx, harness_ok=True):
+    """Regenerate coq/Tables.v: static reading of the source, cross-checked / completed by the probe of the compiled
+    implementation (needs the harness built against the same sources: call after step_harness).  Sections that could not
+    be obtained are recorded in ctx.table_failures; finish() turns them into a broken tie only for the properties that
+    depend on them."""
+    probe_path = None
+    probe_note = "not run (harness not built)"
+    if harness_ok and os.path.exists(ctx.harness_bin):
+        try:
+            import probe
+            probe_path, pd, cached = probe.ensure(REPO, ctx.harness_bin, os.path.join(CACHE, "probe"))
+            probe_note = dict(pd.get("meta", {}), cached=cached)
+        except Exception as e:      # the probe is an addition: without it the static reading stands alone
+            probe_path = None
+            probe_note = f"failed: {type(e).__name__}: {e}"
+    cmd = [sys.executable, os.path.join(VERIF, "tools", "gen_tables.py"), REPO, os.path.join(COQ, "Tables.v")]
+    if probe_path:
+        cmd += ["--probe", probe_path]
+    rc, out = sh(cmd)
     if rc != 0:
+        # nothing could be written at all (no fallback values either): every property is affected
         ctx.broken.append(("translator", "gen_tables.py", out.strip()))
         return False
     try:
         ctx.tables_info = json.loads(out.strip().split("\n")[-1])
     except Exception:
         ctx.tables_info = {"raw": out}
-    return True
+        return True
+    ctx.tables_info["probe"] = probe_note
+    ctx.table_failures = dict(ctx.tables_info.get("failed", {}))
+    return not ctx.table_failures
+
+
+def scope_table_failures(ctx):
+    """A section of Tables.v that could not be obtained (or whose two readings disagree) breaks the tie of exactly the
+    properties whose proof cone or executable model mentions one of its identifiers (tools/tabledeps.py)."""
+    if ctx.table_deps is not None:
+        return
+    try:
+        import tabledeps
+        secs = tabledeps.sections_for(ctx.prop, ctx.coq_files, ctx.kinds)
+    except Exception as e:          # cannot scope: be conservative
+        secs = None
+        ctx.notes.append(f"dependency scoping of Tables.v sections failed ({type(e).__name__}: {e}); every failed section counts")
+    ctx.table_deps = {"kinds": sorted(ctx.kinds), "sections": sorted(secs) if secs is not None else "all"}
+    # tripwires (shape readings of renderers without a finite complete universe) never break a tie by themselves:
+    # no Coq identifier stands for them; the properties whose correspondence + oracle decide the behaviour say so
+    tripped = (ctx.tables_info or {}).get("tripped", {}) if isinstance(ctx.tables_info, dict) else {}
+    mine = sorted(n for n, t in tripped.items() if ctx.prop in t.get("decided_by", []))
+    ctx.table_deps["tripwires_tripped"] = mine
+    for n in mine:
+        ctx.notes.append(f"tripwire tripped: {n} ({tripped[n].get('why', '')[:200]}): decided by the correspondence run")
+    for name, reason in sorted(ctx.table_failures.items()):
+        if secs is None or name in secs:
+            ctx.broken.append(("translator", f"Tables.v section {name}", reason))
+        else:
+            ctx.notes.append(f"Tables.v section {name} could not be tied to the repository ({reason[:300]}); "
+                             f"{ctx.prop} does not depend on it")
 
 
 def ensure_makefile():
@@ -402,6 +461,7 @@ def write_replay(ctx, name, payload):
 def finish(ctx, *, evaluations, distinct_nontrivial, rule, samples, distribution, oracle_failures,
            disagreements, extra_cov=None, exhaustive=False):
     """Decide the verdict, print VIOLATION / KNOWN-FINDING lines, write evidence, return exit code."""
+    scope_table_failures(ctx)
     known = [k for k in load_known() if k["property"] == ctx.prop and k["status"] == "known"]
     known_classes = {k["class"]: k for k in known}
     new_fail = [f for f in oracle_failures if f.klass not in known_classes]
@@ -459,6 +519,7 @@ def finish(ctx, *, evaluations, distinct_nontrivial, rule, samples, distribution
         "print_assumptions_closed": getattr(ctx, "print_assumptions", 0),
         "coqchk": getattr(ctx, "coqchk", "not run in the quick tier (thorough: coqchk -o on the property's .vo closure)"),
         "tables_translator": ctx.tables_info,
+        "tables_dependencies": ctx.table_deps,
         "correspondence_disagreements": len(disagreements),
         "oracle_failures_known_class": sum(len(v) for v in seen_known.values()),
         "oracle_failures_new": len(new_fail),
